@@ -42,6 +42,9 @@ type Options struct {
 	ServerRcvBuf int
 	// PreClosed closes the proxy's closing channel before Config.Proxy is called.
 	PreClosed bool
+	// NoALPN: the server completes the TLS handshake without selecting an application
+	// protocol (an origin that knows nothing of ALPN).
+	NoALPN bool
 }
 
 // Session is one h2.Config.Proxy call between a frame-level client (in-memory)
@@ -124,7 +127,11 @@ func Open(o Options) (*Session, error) {
 	if o.ServerRcvBuf > 0 {
 		s.tcp.SetReadBuffer(o.ServerRcvBuf)
 	}
-	s.tlsConn = tls.Server(s.tcp, &tls.Config{Certificates: []tls.Certificate{leaf}, NextProtos: []string{"h2"}})
+	protos := []string{"h2"}
+	if o.NoALPN {
+		protos = nil
+	}
+	s.tlsConn = tls.Server(s.tcp, &tls.Config{Certificates: []tls.Certificate{leaf}, NextProtos: protos})
 	s.tcp.SetDeadline(time.Now().Add(o.Bound))
 	if err := s.tlsConn.Handshake(); err != nil {
 		s.Teardown(o.Bound)
